@@ -173,7 +173,10 @@ def eval_jaxpr(ctx: Ctx, jaxpr, consts, *args):
         for v, o in zip(eqn.outvars, outs):
             if type(v).__name__ == "DropVar":
                 continue
-            o = _normalise(o, v.aval)
+            try:
+                o = _normalise(o, v.aval)
+            except Unsupported as e:
+                raise Unsupported(f"{e} (result of primitive {name} {dict(eqn.params).get('name', '')})") from None
             env[v] = o
     return [read(v) for v in jaxpr.outvars]
 
@@ -465,6 +468,19 @@ def h_exp(ctx, eqn, a):
                     return P.as_v(math.factorial(info["k"] - 1))
                 if info.get("atom") == "log":
                     return info["args"][0]
+        # exp(sum_k c_k lgamma(k)) with integer c_k (binomial coefficients computed through log-gamma)
+        from fractions import Fraction
+
+        prod = Fraction(1)
+        ok = bool(x.p.t)
+        for m, c in x.p.t.items():
+            if len(m) == 1 and m[0][1] == 1 and P.SYMS[m[0][0]].get("atom") == "lgamma_int" and Fraction(c).denominator == 1:
+                prod *= Fraction(math.factorial(P.SYMS[m[0][0]]["k"] - 1)) ** int(c)
+            else:
+                ok = False
+                break
+        if ok:
+            return P.as_v(prod)
         return P.atom_fun("exp", x, positive=True)
 
     return map_obj(f, a)
